@@ -1,7 +1,10 @@
 (* Lemmas about the counters model (Model/Counters.v): buffer accesses inside the covered geometry,
    the effect of allocate_opt / next_counter_id / write_record, and "an allocation that returns an
    error has changed nothing". *)
-Require Import V.Base.MachineInt V.Generated.GenConsts V.Model.Counters V.Oracle.C15Oracle.
+Require Import V.Base.MachineInt.
+Require Import V.Generated.GenConsts.
+Require Import V.Model.Counters.
+Require Import V.Oracle.C15Oracle.
 From Coq Require Import ZifyBool Lia.
 Open Scope Z_scope.
 
